@@ -296,6 +296,8 @@ func c08Edits(base lpScript, key *lpKey, nonce []byte) []struct {
 				alter("request-type-zero", lpCaps("request-zero"))
 				alter("response-type-zero", lpCaps("response-zero"))
 				alter("response-type-omitted", lpCaps("response-omitted"))
+				alter("security-type-with-empty-mask", lpCaps("ok+security-empty"))
+				alter("security-type-with-empty-mask-first", lpCaps("security-empty+ok"))
 			case "params":
 				alter("cipher=0", lpParams(types, 0, "valid", key.pem, nonce))
 				alter("cipher=2", lpParams(types, 2, "valid", key.pem, nonce))
